@@ -2145,6 +2145,12 @@ func (m *Machine) processQueue() Result {
 	}
 	m.queueMx.Unlock()
 
+	// a caller which lost the CAS after the loop's last length check has left
+	// its mutation in the queue, pick it up
+	if m.queueLen.Load() > 0 && !m.disposing.Load() {
+		m.processQueue()
+	}
+
 	if len(ret) == 0 {
 		return Canceled
 	}
